@@ -20,8 +20,8 @@ CHECKS.update({
         design="§6 C12",
     ),
     "C13": dict(
-        text="Lean 4 theorems over tables regenerated from the live registries/policy: the unrolling code is verified by kernel evaluation (unroll_matches); accepted without skip_checks => a legal runtime mode for that operator, for every config (accepted_minmax_legal, accepted_float_casting); unsupported => ValueError at update time, accepted => never refused; '*' rules that fail the check are never resolved (C11.resolve_sound). The model's acceptance function is compared with the code on the full 24-op x 960-config x 2-algorithm lattice exhaustively.",
-        note="'the interpreter prepares every accepted pair and tracks the float model' is runtime behaviour: not proved; executed for every accepted (algorithm, operator, config) point on a generated model built around that operator (C06/C07 oracles); both orientations (adj_y) of a constant BATCH_MATMUL operand and configs spelt with strings (as recipe files deliver them) are built; findings D23-D27, D33 recorded",
+        text="Lean 4 theorems over tables regenerated from the live registries/policy: the unrolling code is verified by kernel evaluation (unroll_matches); accepted without skip_checks => a legal runtime mode for that operator, for every config (accepted_minmax_legal, accepted_float_casting); unsupported => ValueError at update time, accepted => never refused; '*' rules that fail the check are never resolved (C11.resolve_sound). The model's acceptance function is compared with the code on the full lattice (27 200 points: 25 operator names x 544 configs x 2 algorithms) exhaustively.",
+        note="'the interpreter prepares every accepted pair and tracks the float model' is runtime behaviour: not proved; executed for every accepted (algorithm, operator, config) point on a generated model built around that operator (C06/C07 oracles); both orientations (adj_y) of a constant BATCH_MATMUL operand and configs spelt with strings (as recipe files deliver them) are built, CONCATENATION also with constant operands; the lattice includes BLOCKWISE weight configs (usable / unusable block size: all refused without skip_checks); findings D23-D27, D33 recorded",
         design="§6 C13",
     ),
 })
@@ -38,8 +38,7 @@ CHECKS.update({
     ),
     "C03": dict(
         text="Lean 4 theorems on the materialisation model: which transformation each mode requests per operand (static range / dynamic range / weight only), non-float operands always receive NO_QUANTIZE (nonfloat_never_quantized), tensor type produced per bit width; combined with the wiring theorems of C01/C02. The materialisation and the whole pipeline are compared bit-exactly with the code; an independent per-operand dtype oracle runs on every generated case.",
-        note="END TO END (QProps/C03d): for every original operator of a successful quantizePure under NF, by resolved mode: no-quantize => results/operands untouched or float32 through exactly one inserted DEQUANTIZE, constants with unchanged buffers (noquant_op_untouched); static range => integer tensors of the activation width with parameters, integer constants, 32/64-bit bias (srq_op_typed, srq_bias_typed); dynamic range / weight only / float16 (drq_op_typed, wo_op_typed, f16_op_typed); every untagged operator is a well-typed QUANTIZE/DEQUANTIZE (inserted_ops_typed). Earlier layers: per-step (C03b) and whole-performer (C03c) typing. Byte identity of untouched constants is 'same abstract buffer content' in the model; bytes are compared by execution",
-
+        note="END TO END (QProps/C03d): for every original operator of a successful quantizePure under NF, by resolved mode: no-quantize => results/operands untouched or float32 through exactly one inserted DEQUANTIZE, constants with unchanged buffers (noquant_op_untouched); static range => integer tensors of the activation width with parameters, integer constants, 32/64-bit bias (srq_op_typed, srq_bias_typed); dynamic range / weight only / float16 (drq_op_typed, wo_op_typed, f16_op_typed); every untagged operator is a well-typed QUANTIZE/DEQUANTIZE (inserted_ops_typed). Earlier layers: per-step (C03b) and whole-performer (C03c) typing. Byte identity of untouched constants is 'same abstract buffer content' in the model; bytes are compared by execution; executed cases include INTEGER data branches (MEAN / ADD / TRANSPOSE / CONCATENATION over INT32 tensors beside the float graph) and an independent reading of the default policy as data: an operator in a quantized mode must be listed there with its config",
         design="§6 C03",
     ),
     "C04": dict(
@@ -69,7 +68,7 @@ CHECKS.update({
     ),
     "C14": dict(
         text="Lean 4 theorems: the statistics object handed to quantize() is unchanged; quantize() and calibrate() of a Quantizer reached by ANY history of recipe updates equal those of a fresh Quantizer that loads the exported recipe (via the reload theorem). Executed: random interleavings of update/load/calibrate/quantize/validate on two Quantizers sharing results with deep equality of all caller-owned arguments, sha256 vs fresh Quantizer, and fresh processes under other PYTHONHASHSEED values.",
-        note="process-level determinism and hash-seed independence are CPython/runtime behaviour: executed, not proved",
+        note="process-level determinism and hash-seed independence are CPython/runtime behaviour: executed, not proved; validate() is only called in-process on models the runtime survives in a child process (a few models make it abort, cf. finding D29)",
         design="§6 C14",
     ),
     "C15": dict(
@@ -91,7 +90,7 @@ CHECKS.update({
     ),
     "C07": dict(
         text="PARTIAL proof. Proved in Lean 4: what the quantizer contributes to the integer numerics — scale positive/finite, zero point in range, value round-trip within half a step under IEEE rounding (C17.*), bias scale = input scale x weight scale with zero point 0 (C04.bias_params), per-operand transformations of static-range ops (C03.xfs_srq). Pipeline compared bit-exactly with the code. The statement's observable (dequantized interpreter outputs near the float outputs on the calibration input; never constant/non-finite when the float output is not) is executed on generated models of depth 1-4 for every static config family with a deliberately generous bound and localisation of the first operator that is off.",
-        note="LiteRT fixed-point kernels are outside the model: closeness is exploration-level evidence; C07b: for ONE operator under the integer kernel of the TFLite quantization spec over exact rationals the dequantized result is within sy/2 + sum(|x_i| sw/2 + |w_i| sx/2 + sx sw/4) + sx sw/2 of the float result inside the output range and the nearest bound outside (fc_row_error, _sat), with the fixed fractions per width (0.59 % a8w8, 7.4 % a8w4, 0.40 % a16w8, 7.1 % a16w4) and the not-constant clause; the executed bound additionally accounts for the 512-cell tables of the 16-bit GELU/TANH/LOGISTIC kernels; recorded findings D24, D25, D33, D39 are call-site keyed",
+        note="LiteRT fixed-point kernels are outside the model: closeness is exploration-level evidence; C07b: for ONE operator under the integer kernel of the TFLite quantization spec over exact rationals the dequantized result is within sy/2 + sum(|x_i| sw/2 + |w_i| sx/2 + sx sw/4) + sx sw/2 of the float result inside the output range and the nearest bound outside (fc_row_error, _sat), with the fixed fractions per width (0.59 % a8w8, 7.4 % a8w4, 0.40 % a16w8, 7.1 % a16w4) and the not-constant clause; the executed bound additionally accounts for the 512-cell tables of the 16-bit GELU/TANH/LOGISTIC kernels; the theorem's hypothesis (stored weight / bias codes within a step of the float values) is evaluated on every executed case; recorded findings D24, D25, D33, D39 are call-site keyed",
         design="§6 C07",
     ),
     "C16": dict(
@@ -101,7 +100,7 @@ CHECKS.update({
     ),
     "C18": dict(
         text="Lean 4 theorems on the validation model: mse / median-diff-ratio are 0 on identical tensors, non-negative, symmetric where stated; comparison produces exactly one entry per common tensor name, inputs are filed under their names; self-comparison is all-zero. Executed: validate() on generated models vs the model's metric arithmetic (exact), float-vs-float self comparison, one entry per flatbuffer tensor.",
-        note="C18b: the whole compare_model is specified and proved on the model: which names are reported, in which single group, with which value (mean in sample order of the metric of the dequantized contents), self comparison files 0 everywhere, non-negativity, MSE symmetry, and an iff characterisation of success and of every failure; the interpreter runs are external inputs of the model; interpreter-internal scratch tensors are ignored; cases hit by finding D27 (runtime results depend on uninitialised memory) are not compared numerically",
+        note="C18b: the whole compare_model is specified and proved on the model: which names are reported, in which single group, with which value (mean in sample order of the metric of the dequantized contents), self comparison files 0 everywhere, non-negativity, MSE symmetry, and an iff characterisation of success and of every failure; the interpreter runs are external inputs of the model; interpreter-internal scratch tensors are ignored; cases hit by finding D27 (runtime results depend on uninitialised memory) are not compared numerically; references holding quantized tensors (the quantized model against itself / as the reference of the float model) are executed too; models on which the runtime aborts in a child process are skipped",
         design="§6 C18",
     ),
 })
